@@ -155,6 +155,15 @@ def build_frame(ds, with_weights=False, row_order=None, col_order=None):
     if with_weights and ds.get("weights"):
         w = ds["weights"] if row_order is None else [ds["weights"][i] for i in row_order]
         df["_weight"] = pd.Series(w, dtype="float64")
+    # row labels other than 0..n-1 (a filtered, re-sorted or shifted frame): rows are rows, whatever they are called
+    mode = ds.get("index_mode", "default")
+    n = len(df)
+    if mode == "reversed_labels":
+        df.index = list(range(n - 1, -1, -1))
+    elif mode == "offset":
+        df.index = [100 + 3 * i for i in range(n)]
+    elif mode == "strings":
+        df.index = [f"r{i}" for i in range(n)]
     return df
 
 
